@@ -277,21 +277,31 @@ PROPS = {
                 'real TargetsDiscovery -> ActiveTargetsByHash -> JSON -> real Injector -> config.Load of the written file -> TargetsFromGroup on '
                 'the generated job -> real Proxy.ServeHTTP with a recording client. Compared: visible labels and the URL really requested. '
                 'non-trivial = the reference has >= 1 active target; distinct by input',
-        'theorems': 'C02_proxy_restores C02_routing_param_forgotten C02_param_shipping C02_equiv_refuted_interval_labels (+ computed witnesses)',
+        'theorems': 'C02_equivalent C02_equivalent_checked C02_param_on_shard C02_proxy_restores C02_routing_param_forgotten '
+                    'C02_param_shipping C02_equiv_refuted_interval_labels C02_equiv_refuted_job_emptied (+ computed witnesses, C02_hypotheses_satisfiable)',
         'trusted_base': ['Model/Translate.v hand-written model of BOTH routes (library PopulateLabels/Target.URL as reference; kvass populateLabels, '
                          'param/invalid-name shipping, target2targetGroup, library PopulateLabels on the shard, translateURL); both are compared with '
                          'the real code on every run: model-of-reference vs library, model-of-system vs kvass, and reference vs system (the property)',
-                         'relabel interpreter for a literal-pattern subset (in the theorems relabeling is a parameter)',
-                         'port test / address check / interval check are predicates instantiated for the generated address shapes'],
-        'assumptions': ['the general equivalence theorem is not yet proved (see Properties/C02.v STATUS); the property is decided by the differential run',
+                         'relabel interpreter for a literal-pattern subset (in the theorems relabeling is an arbitrary function)',
+                         'port test / address check / interval check are arbitrary predicates in the theorem (the port test must not ask for a '
+                         'port twice); instantiated for the generated address shapes in the run'],
+        'assumptions': ['hypotheses of C02_equivalent, each a real precondition of the property: (1) the relabel rules neither read nor write '
+                        '__scrape_interval__/__scrape_timeout__ (otherwise refuted: known finding); (2) the relabelled set keeps job, __scheme__ and '
+                        '__metrics_path__ non-empty (otherwise refuted: the shard\'s Prometheus fills them in again, known finding); (3) no relabelled name already carries '
+                        'the invalid-label prefix or is a routing parameter name, __param_ names are valid names; (4) the job\'s params have unique '
+                        'keys, none a routing name. The run evaluates these hypotheses on every generated entry (evidence: model_theorem_applies)',
+                        'label sets are compared as maps name -> value and queries key by key (what labels.Labels and url.Values are); the '
+                        'sorted-list representation is not part of the statement',
                         'label names that the prefix cannot make valid (illegal characters) cannot be produced by Prometheus relabeling (labelmap can only '
-                        'produce a leading digit); they would make the generated file invalid',
-                        'no discovered or relabelled label uses the three routing parameter names'],
-        'level_text': 'Proof (partial): executable Gallina model of both routes tied to the library and to kvass by a three-way differential run on '
-                      'every run; theorems for the proxy round trip of the routing parameters, the shipping rule for configured params, computed '
-                      'end-to-end witnesses, and a machine-checked refutation of the unrestricted statement (relabel rules that read the interval '
-                      'labels: known finding). Missing: the general equivalence theorem for every relabel function under the stated hypotheses.',
-        'level_note': 'Trusted: Coq kernel; hand-written two-route model; the differential run carries the equivalence claim (partial proof).',
+                        'produce a leading digit); they would make the generated file invalid'],
+        'level_text': 'Proof: C02_equivalent - for every relabel function, port test, address check, interval check, job and discovered label set, '
+                      'under the stated hypotheses on the relabel result, the sharded route (coordinator populateLabels, shipping of params and '
+                      'invalid names, static group with routing params, the shard\'s own label population with the labelmap rule, the proxy\'s URL '
+                      'translation) yields the same target as one plain Prometheus: dropped/failed alike, same visible labels, scheme, host, path, '
+                      'and query values; a machine-checked refutation shows the hypothesis on the interval labels is needed (known finding). '
+                      'The executable model of both routes is tied to the library and to kvass by a three-way differential run on every run. '
+                      'Partial in one respect: that a given rule list meets hypothesis (1) is evaluated per case, not proved for the rule interpreter.',
+        'level_note': 'Trusted: Coq kernel; hand-written two-route model validated three ways on every run; hypotheses of the theorem as listed.',
     },
     'C03': {'engines': [('loop', 120, 3000, ['-shardsize', '10'])], 'rule': "one PRNG: limits (process 60/100/200, head none/half/equal), max-shard 4-6, min-shard 0-1, max-idle 0 or 600 s; 1-5 (1-7) targets with sizes from 1 to limit-1 (total >= series), 1/9 unhealthy, 1/10 not discovered; 1-3 initial shards; initial placement empty (the system builds it) or ARBITRARY (each target on each shard with probability 1/3, 1/5 of the copies in_transfer: duplicates, pending transfers without partner, overload); a prefix of 0-4 events: rounds with or without a fault (a target update lost, a shard unreachable / not ready / refusing the configuration for that cycle), sidecar restarts (new process on the same store directory, default configuration), changes of the discovered set; then 14 fault-free rounds (cycle, every assigned copy scraped 3 times through the real proxy, 400 s pass). Real Coordinator (hook VerifRunOnce) against real TargetsManager+Service+Proxy per shard through Shard.APIGet/APIPost closures (JSON intact), a simulated StatefulSet following the last scale request, idle-since instants mapped between the world clock and the coordinator's clock. Observed after every step: every sidecar's /targets/status/ and /runtimeinfo/, POST bodies and scale requests of every cycle. non-trivial = all; distinct by input", 'theorems': 'C03_place_or_grow C03_placed_or_counted C03_needed_space_grows_the_replica C03_relief_need_nonnegative C03_orphan_transfer_recovered C03_in_transfer_has_partner C03_tie_broken_by_position (+ computed convergence example)', 'trusted_base': ["Model/World.v composes Model/Sidecar.v and Model/Coordinator.v with a StatefulSet and fault steps; it is run in LOCK STEP with the real closed loop: before every cycle the model builds the coordinator's input from ITS OWN sidecar states, the implementation's POST bodies / scale requests must be one of the model's outcomes (all schedules), and after every step every sidecar's reported state must equal the model's", 'the explorer and discovery are scripted by the harness (their behaviour is C20 / C17)', 'hooks: VerifRunOnce, VerifSetTimeNow'], 'assumptions': ['convergence bound: 14 fault-free rounds are enough for the generated sizes (<= 7 targets, <= 6 shards); a history that needs more would be reported as a violation', 'fairness: every assigned copy is scraped 3 times per round; a scale request takes effect before the next cycle; new shards start empty with the default configuration', 'the liveness statement itself (convergence within a bound from every well-formed world) is not one theorem: see Properties/C03.v STATUS'], 'level_text': "Proof (partial): for every input and every iteration order - an eligible target that assignment visits is placed or its size is added to the needed space; needed space from relief is never negative; non-zero needed space with all shards in sync asks for more than the current count, and clamping keeps that below max-shard (place-or-grow for one whole cycle); an in_transfer copy without partner is normal after the recovery pass and nothing stays in_transfer without one; equal loads no longer keep both copies of a duplicate. Not proved: the composition into 'converges within B rounds from every well-formed world, then nothing changes'; that is validated on the REAL closed loop (lock-step model agreement after every step, end states converged and stable).", 'level_note': 'Trusted: Coq kernel; hand-written closed-loop model validated in lock step; convergence is checked on runs, not proved (liveness).'},
     'C06': {'engines': [('loop', 120, 3000, ['-shardsize', '10', '-propok', 'c06_case'])], 'rule': "one PRNG: limits (process 60/100/200, head none/half/equal), max-shard 4-6, min-shard 0-1, max-idle 0 or 600 s; 1-5 (1-7) targets with sizes from 1 to limit-1 (total >= series), 1/9 unhealthy, 1/10 not discovered; 1-3 initial shards; initial placement empty (the system builds it) or ARBITRARY (each target on each shard with probability 1/3, 1/5 of the copies in_transfer: duplicates, pending transfers without partner, overload); a prefix of 0-4 events: rounds with or without a fault (a target update lost, a shard unreachable / not ready / refusing the configuration for that cycle), sidecar restarts (new process on the same store directory, default configuration), changes of the discovered set; then 14 fault-free rounds (cycle, every assigned copy scraped 3 times through the real proxy, 400 s pass). Real Coordinator (hook VerifRunOnce) against real TargetsManager+Service+Proxy per shard through Shard.APIGet/APIPost closures (JSON intact), a simulated StatefulSet following the last scale request, idle-since instants mapped between the world clock and the coordinator's clock. Observed after every step: every sidecar's /targets/status/ and /runtimeinfo/, POST bodies and scale requests of every cycle. non-trivial = all; distinct by input", 'theorems': 'C06_faults_preserve_wf_cycle C06_faults_preserve_wf_step C06_no_target_in_transfer_for_ever C06_no_duplicate_for_ever C06_none_unscraped (+ computed recovery example)', 'trusted_base': ["Model/World.v composes Model/Sidecar.v and Model/Coordinator.v with a StatefulSet and fault steps; it is run in LOCK STEP with the real closed loop: before every cycle the model builds the coordinator's input from ITS OWN sidecar states, the implementation's POST bodies / scale requests must be one of the model's outcomes (all schedules), and after every step every sidecar's reported state must equal the model's", 'the explorer and discovery are scripted by the harness (their behaviour is C20 / C17)', 'hooks: VerifRunOnce, VerifSetTimeNow'], 'assumptions': ['convergence bound: 14 fault-free rounds are enough for the generated sizes (<= 7 targets, <= 6 shards); a history that needs more would be reported as a violation', 'fairness: every assigned copy is scraped 3 times per round; a scale request takes effect before the next cycle; new shards start empty with the default configuration', 'the liveness statement itself (convergence within a bound from every well-formed world) is not one theorem: see Properties/C03.v STATUS'], 'level_text': 'Proof (partial): every fault step (lost update, unreachable / unready / out-of-sync shard, restart, scaling) and every cycle with any POST bodies keeps every sidecar well formed (C10 invariant), for all histories; the states faults leave behind and the original code never left - an in_transfer copy without partner, equally loaded duplicates - are left in one cycle; an unscraped eligible target is placed or the replica grows. Not proved: bounded recovery as one theorem (inherits C03); validated on the real closed loop with injected faults followed by 14 fault-free rounds.', 'level_note': 'Trusted: Coq kernel; hand-written closed-loop model validated in lock step; convergence is checked on runs, not proved (liveness).'},
@@ -463,6 +473,9 @@ def classify(prop, engine, case, failed_extra=()):
         text = json.dumps(inp.get('Rules') or []) + (inp.get('RawRelabel') or '')
         if '__scrape_interval__' in text or '__scrape_timeout__' in text:
             return 'C02-relabel-reads-scrape-interval-labels'
+        for r in (inp.get('Rules') or []):
+            if r.get('Action') == 'replace' and not (r.get('Repl') or []) and r.get('Target') in ('job', '__metrics_path__', '__scheme__'):
+                return 'C02-relabel-empties-job-path-or-scheme'
         return 'C02-route'
     if engine == 'inject':
         return 'C11-inject'
